@@ -17,6 +17,8 @@ import (
 	"context"
 	"sync"
 	"sync/atomic"
+
+	"github.com/dapr/kit/verifhook"
 )
 
 const bufferSize = 10
@@ -92,6 +94,7 @@ func (b *Broadcaster[T]) subscribe(ctx context.Context, ch chan<- T) {
 			case <-b.closeCh:
 				return
 			case val := <-bufferedCh:
+				verifhook.Point("broadcaster.forwarder.holding", b, id, val)
 				select {
 				case <-ctx.Done():
 					return
@@ -108,6 +111,7 @@ func (b *Broadcaster[T]) subscribe(ctx context.Context, ch chan<- T) {
 func (b *Broadcaster[T]) Broadcast(value T) {
 	b.lock.Lock()
 	defer b.lock.Unlock()
+	verifhook.Point("broadcaster.broadcast.locked", b, value)
 	if b.closed.Load() {
 		return
 	}
